@@ -338,3 +338,28 @@ Example C01_text_example :
   fst (run 1000 ex_ctx tx_P (init_mach ex_st)) = VApprove.
 Proof. exact routine_text_end_to_end_example. Qed.
 Print Assumptions C01_text_example.
+
+(* the line shapes of real PyTeal output (verbatim compileTeal output on /repo, version 8: comment, txn / global /
+   txna / gtxn fields, named integers, addr, method, byte in base64 / base16 / base32 / raw / string form, ops with
+   two immediates, op names with a slash or a bar, itxn_field, asset_params_get, base64_decode, json_ref, gload,
+   2^64-1) are in the printable class: the component list assembles to exactly these lines and the text parses to
+   the linked program *)
+Example C01_real_line_shapes_printable :
+  assemble_all shapes_comps = Some shapes_lines /\
+  printable shapes_msel shapes_comps = true /\
+  (exists P, parse_program shapes_msel (program_text shapes_lines) = Some P /\
+             link shapes_msel shapes_comps = Some P /\ List.length (pr_code P) = 76).
+Proof. exact real_line_shapes_printable. Qed.
+
+(* a two-routine text with a subroutine header whose name contains a line feed (verbatim compileTeal output) *)
+Example C01_subroutine_header_roundtrip :
+  printable [] two_comps = true /\
+  (exists lines, assemble_all two_comps = Some lines /\
+     program_text lines =
+       ("#pragma version 6" ++ nl ++ "int 5" ++ nl ++ "callsub fooint0_0" ++ nl ++ "return" ++ nl ++
+        nl ++ "// foo" ++ nl ++ "// int 0" ++ nl ++ "fooint0_0:" ++ nl ++ "store 0" ++ nl ++ "load 0" ++ nl ++
+        "int 2" ++ nl ++ "*" ++ nl ++ "retsub")%string /\
+     parse_program [] (program_text lines) = link [] two_comps) /\
+  (exists P, link [] two_comps = Some P /\ List.length (pr_code P) = 8 /\ label_pc P "fooint0_0" = Some 3 /\
+             fst (run 100 ex_ctx P (init_mach ex_st)) = VApprove).
+Proof. exact subroutine_header_roundtrip. Qed.
